@@ -22,6 +22,8 @@ macro_rules! registry {
 registry! {
     "C02" => c02,
     "C04" => c04,
+    "C08" => c08,
     "C09" => c09,
+    "C11" => c11,
     "C13" => c13,
 }
